@@ -880,7 +880,7 @@ func (c *converter) popEndLabel() string {
 }
 
 func (c *converter) nextEndLabel() string {
-	c.endLabels = append(c.endLabels, fmt.Sprintf(":_e%d", len(c.endLabels)))
+	c.endLabels = append(c.endLabels, fmt.Sprintf(":_e%d", c.forCounter-1)) // Numbered like the loop's start label to be unique.
 	return c.mustCurrentEndLabel()
 }
 
